@@ -22,7 +22,7 @@ LEVEL = "fault_enumeration"
 EXHAUSTIVE = True
 RULE = ("(model_parameters handed over as a fresh copy per run / as ONE dict object reused by all 16 runs of the "
         "process / left out) exhaustive over {16 subsets of save_output} x {local, non-local environment} x {nonparametric, gaussian, "
-        "bootstrap} x {minimum-units gate passes, fails} x {with, without national summary (bootstrap)}; each "
+        "bootstrap} x {minimum-units gate passes, fails with a few units reporting, fails with a feed in which no unit has a vote yet} x {with, without national summary (bootstrap)}; each "
         "environment runs in a fresh subprocess with its own scratch cwd. Trace = sequence of put_object calls on a "
         "recording S3 client + audit events (file opens for writing, mkdir, rename, socket connects) + outcome; "
         "checked against the specification in DESIGN.md 6/C18. Non-trivial: a trace with at least one persisted "
@@ -49,7 +49,7 @@ def cases(tier, seed):
     for e in range(n_el):
         for env in ENVS:
             for est in ("nonparametric", "gaussian", "bootstrap"):
-                for gate in ("pass", "fail"):
+                for gate in ("pass", "fail", "fail-empty"):
                     # how the caller hands over model_parameters across the 16 runs of one process: a fresh copy per
                     # run, ONE dict object reused for every run, or (no parameters needed) the argument left out
                     args = ARG_MODES[(k + e) % len(ARG_MODES)]
@@ -128,7 +128,7 @@ def check_trace(tr, spec):
     if tr["outcome"] == "error":
         V(f"C18/run-raised/{tr['exc_type']}", f"run raised {tr['exc_type']}: {tr['exc_msg']}")
         return vs
-    if spec["gate"] == "fail" and tr["outcome"] != "not_enough":
+    if spec["gate"] in ("fail", "fail-empty") and tr["outcome"] != "not_enough":
         V("C18/harness/gate-did-not-fail", "expected the minimum-units gate to fail")
     if spec["gate"] == "pass" and tr["outcome"] != "ok":
         V("C18/harness/gate-did-not-pass", "expected the run to complete")
@@ -284,7 +284,7 @@ def child(spec):
     call["model_parameters"].pop("unit_blocklist", None)
     # make the gate outcome deterministic: exactly 3 baseline units at 100 % (fail) / at least 45 (pass)
     base_ids = set(el.pre[el.pre.baseline_turnout > 0].geographic_unit_fips)
-    want = 3 if spec["gate"] == "fail" else 45
+    want = 3 if spec["gate"] == "fail" else (0 if spec["gate"] == "fail-empty" else 45)
     n_rep = 0
     for j in range(len(feed)):
         if feed.loc[j, "geographic_unit_fips"] not in base_ids:
@@ -295,8 +295,11 @@ def child(spec):
                 b = el.pre[el.pre.geographic_unit_fips == feed.loc[j, "geographic_unit_fips"]].iloc[0]
                 feed.loc[j, ["results_turnout", "results_dem", "results_gop"]] = [int(b.baseline_turnout), int(b.baseline_dem), int(b.baseline_gop)]
             n_rep += 1
-        elif spec["gate"] == "fail":
+        elif spec["gate"] in ("fail", "fail-empty"):
             feed.loc[j, "percent_expected_vote"] = 0.0
+    if spec["gate"] == "fail-empty":  # polls have just closed: the feed lists every unit, none has a single vote
+        feed[["results_turnout", "results_dem", "results_gop"]] = 0
+        feed["percent_expected_vote"] = 0.0
     call["model_parameters"].update(turnout_factor_lower=0.0, turnout_factor_upper=1e9)
     traces = []
     shared_dict = copy.deepcopy(call["model_parameters"])
